@@ -5,6 +5,8 @@ package props
 import (
 	"context"
 	"fmt"
+	"os"
+	"os/exec"
 	"strings"
 	"time"
 
@@ -45,7 +47,39 @@ func evalRaw(fd *FakeDocker, query string, p EvalP) (lokiapi.QueryResponseData, 
 	return newEngine(dockerQuerier(fd)).Eval(context.Background(), query, p.params())
 }
 
+// queries whose answer involves ties (equal counts) or an order among series, evaluated by child processes
+var c18ChildQueries = []string{
+	`topk(1, count_over_time({container=~".+"}[1h]))`,
+	`bottomk(2, count_over_time({container=~".+"} | drop msg [1h]))`,
+	`sort(count_over_time({container=~".+"} | drop msg [1h]))`,
+	`topk by (job) (2, sum by (container, job) (count_over_time({container=~".+"}[1h])))`,
+	`avg(rate({container=~".+"}[7s]))`,
+}
+
+func c18Child() {
+	inv := make([]CSpec, 6)
+	for i := range inv {
+		inv[i] = CSpec{ID: fmt.Sprintf("id%d", i), Name: fmt.Sprintf("/svc-%c", 'a'+i), Image: "img", State: "running", Labels: map[string]string{"job": "j"}}
+		for j := 0; j < 3; j++ {
+			inv[i].Frames = append(inv[i].Frames, Frame{Type: 1, TS: c14T0 + int64(j)*1e9 + int64(i)*1000, Body: fmt.Sprintf("line %d", j)})
+		}
+	}
+	for _, q := range c18ChildQueries {
+		data, err := evalRaw(newFakeDocker(inv), q, EvalP{Start: c14T0 + 5e9, End: c14T0 + 5e9, Limit: -1})
+		if err != nil {
+			fmt.Printf("C18CHILD error %v\n", err)
+			continue
+		}
+		res, _ := convertResult(data)
+		fmt.Printf("C18CHILD %q\n", res.Canonical())
+	}
+}
+
 func runC18(r *vk.Run) {
+	if os.Getenv("VERIF_C18_CHILD") != "" {
+		c18Child()
+		os.Exit(0)
+	}
 	r.SetRule("inventories of 1..5 containers (distinct timestamps; one container carries Docker label keys a.b / a-b / a/b that sanitise to the same name with different values) x 15 queries (log, pipeline, range, unwrap, grouped, top-k, arithmetic/literal/set binary) " +
 		"x ALL completion orders of the concurrent per-container requests (gated fake client) x repetitions (map-iteration orders): the canonicalised Eval result and, for log queries, the rendered bytes (colour off) must be identical over all runs of one (inventory, query); " +
 		"plus ungated 64-container stress; everything under the Go race detector, any report is a violation. non-trivial = distinct (inventory, query, order) runs with >=2 containers and a non-empty result.")
@@ -59,6 +93,44 @@ func runC18(r *vk.Run) {
 		return
 	}
 	reps := r.N(2, 8)
+
+	// every run of the tool is a new process: nothing in an answer may depend on per-process randomness (hash
+	// seeds, addresses), also where values tie. The same evaluations are made in several fresh processes of
+	// this very binary and their canonical results compared
+	r.Phase("processes", 1, func(c *vk.Case) {
+		first := ""
+		for run := 0; run < c.R.N(5, 12); run++ {
+			cmd := exec.Command(os.Args[0], "-test.run", "^TestVerifHarness$", "-test.timeout", "0")
+			cmd.Env = append(os.Environ(), "VERIF_C18_CHILD=1", "VERIF_PROP=C18", "GORACE=halt_on_error=0")
+			out, err := cmd.Output()
+			c.Eval(1)
+			var lines []string
+			for _, l := range strings.Split(string(out), "\n") {
+				if strings.HasPrefix(l, "C18CHILD ") {
+					lines = append(lines, l)
+				}
+			}
+			if err != nil || len(lines) != len(c18ChildQueries) {
+				c.R.Inconclusive(fmt.Sprintf("child process of the harness gave %d of %d answers (err=%v)", len(lines), len(c18ChildQueries), err))
+				return
+			}
+			got := strings.Join(lines, "\n")
+			if first == "" {
+				first = got
+			} else if got != first {
+				a, b := strings.Split(first, "\n"), lines
+				for i := range a {
+					if a[i] != b[i] {
+						c.Fail("", fmt.Sprintf("query %s over the same logs answers differently in another process of the same program", c18ChildQueries[i]), map[string]any{"query": c18ChildQueries[i], "first_process": trunc(a[i], 2000), "this_process": trunc(b[i], 2000), "process": run})
+						return
+					}
+				}
+			}
+			c.Count("process_runs_compared", 1)
+		}
+		c.Nontrivial("processes")
+	})
+	r.Require("process_runs_compared", 5)
 
 	r.Phase("orders", r.N(3, 40), func(c *vk.Case) {
 		for n := 1; n <= 5; n++ {
@@ -578,6 +650,49 @@ func runC18(r *vk.Run) {
 		}
 	})
 	r.Require("e2e_runs_compared", 30)
+
+	// ONE container refuses its log (removed between the listing and the request, unreadable driver, ...) while
+	// the others answer: whatever the tool makes of that -- the query fails, or it answers without that
+	// container -- it makes the same of it in every completion order of the concurrent requests
+	r.Phase("onerefusal", r.N(3, 30), func(c *vk.Case) {
+		for n := 2; n <= 4; n++ {
+			inv := c14Inventory(c.Rng, n, 3)
+			refuser := c.Rng.Intn(n)
+			for qi, q := range []string{`{container=~".+"}`, `sum(count_over_time({container=~".+"}[10s]))`, `{container=~".+"} | drop msg`} {
+				// "no such container" (removed since the listing) and one other class of refusal per case
+				class := c14OpenErrs[1]
+				if qi == 1 {
+					class = c14OpenErrs[(c.Idx+n)%len(c14OpenErrs)]
+				}
+				first, firstOrder := "", []int(nil)
+				for _, perm := range permutations(n) {
+					fd := newFakeDocker(inv)
+					fd.Containers[refuser].LogsErr = class
+					ids := make([]string, n)
+					for i, o := range perm {
+						ids[i] = inv[o].ID
+					}
+					newOrderGate(ids).attach(fd)
+					data, err := evalRaw(fd, q, EvalP{Start: c14T0, End: c14T0 + 10e9, Step: 5 * time.Second, Limit: -1})
+					c.Eval(1)
+					outcome := "error"
+					if err == nil {
+						res, _ := convertResult(data)
+						outcome = "answer: " + res.Canonical()
+					}
+					if first == "" {
+						first, firstOrder = outcome+"\x00", perm
+					} else if first != outcome+"\x00" {
+						c.Fail("", fmt.Sprintf("query %s with container %d of %d refusing its log (%v): completion order %v gives %s, order %v gave %s", q, refuser, n, class, perm, trunc(outcome, 60), firstOrder, trunc(first, 60)), map[string]any{"inventory": inv, "query": q, "refusing": inv[refuser].ID, "order": perm, "this_run": trunc(outcome, 1500), "first_run": trunc(first, 1500)})
+						return
+					}
+					c.Count("onerefusal_runs_compared", 1)
+				}
+			}
+		}
+		c.Nontrivial(fmt.Sprintf("onerefusal|%d", c.Idx))
+	})
+	r.Require("onerefusal_runs_compared", 150)
 
 	// the failure paths of the concurrent opening run under the race detector as well: several
 	// containers refuse their log in the same query (the ungated requests fail at the same moment)
